@@ -42,8 +42,17 @@ impl<'a> GenOpts<'a> {
     }
 }
 
+/// next f64 towards minus infinity
 pub fn pred(x: f64) -> f64 {
-    f64::from_bits(x.to_bits() - 1)
+    if x.is_nan() || x == f64::NEG_INFINITY {
+        x
+    } else if x == 0.0 {
+        -f64::from_bits(1)
+    } else if x > 0.0 {
+        f64::from_bits(x.to_bits() - 1)
+    } else {
+        f64::from_bits(x.to_bits() + 1)
+    }
 }
 
 pub fn gen_content(rng: &mut Rng, kind: CompKind) -> Content {
